@@ -173,6 +173,143 @@ impl serde::Serialize for EntriesKv {
     }
 }
 
+/// One collector of the Serde data model with `len` items, written by hand
+/// (what a derive produces once some fields are skipped).
+#[derive(Debug, Clone)]
+struct Arity {
+    kind: u8,
+    len: usize,
+    /// what `len` the collector is told up front: true = the real one, false = none (seq, map) or one more (skipped field)
+    honest: bool,
+}
+const FIELD_NAMES: [&str; 4] = ["a", "b", "c", "d"];
+impl serde::Serialize for Arity {
+    fn serialize<S: serde::Serializer>(&self, ser: S) -> Result<S::Ok, S::Error> {
+        use serde::ser::{SerializeMap, SerializeSeq, SerializeStruct, SerializeStructVariant, SerializeTuple, SerializeTupleStruct, SerializeTupleVariant};
+        let n = self.len;
+        match self.kind {
+            0 => {
+                let mut c = ser.serialize_seq(if self.honest { Some(n) } else { None })?;
+                for i in 0..n {
+                    c.serialize_element(&(i as u8))?;
+                }
+                c.end()
+            }
+            1 => {
+                let mut c = ser.serialize_tuple(n)?;
+                for i in 0..n {
+                    c.serialize_element(&(i as u8))?;
+                }
+                c.end()
+            }
+            2 => {
+                let mut c = ser.serialize_tuple_struct("T", n)?;
+                for i in 0..n {
+                    c.serialize_field(&(i as u8))?;
+                }
+                c.end()
+            }
+            3 => {
+                let mut c = ser.serialize_tuple_variant("E", 1, "tv", n)?;
+                for i in 0..n {
+                    c.serialize_field(&(i as u8))?;
+                }
+                c.end()
+            }
+            4 => {
+                let mut c = ser.serialize_map(if self.honest { Some(n) } else { None })?;
+                for i in 0..n {
+                    c.serialize_entry(FIELD_NAMES[i % 4], &(i as u8))?;
+                }
+                c.end()
+            }
+            5 => {
+                let mut c = ser.serialize_struct("S", if self.honest { n } else { n + 1 })?;
+                for i in 0..n {
+                    c.serialize_field(FIELD_NAMES[i % 4], &(i as u8))?;
+                }
+                if !self.honest {
+                    c.skip_field("skipped")?;
+                }
+                c.end()
+            }
+            _ => {
+                let mut c = ser.serialize_struct_variant("E", 2, "sv", if self.honest { n } else { n + 1 })?;
+                for i in 0..n {
+                    c.serialize_field(FIELD_NAMES[i % 4], &(i as u8))?;
+                }
+                if !self.honest {
+                    c.skip_field("skipped")?;
+                }
+                c.end()
+            }
+        }
+    }
+}
+
+/// Derived: variants that lose fields to `skip`, down to one or none.
+#[derive(serde::Serialize, Debug, Clone)]
+#[serde(rename_all = "kebab-case")]
+enum Skippy {
+    OneLeft(u8, #[serde(skip)] std::marker::PhantomData<u16>),
+    NoneLeft(#[serde(skip)] u8, #[serde(skip)] u8),
+    TwoLeft(u8, #[serde(skip)] u8, i8),
+    StOneLeft {
+        a: u8,
+        #[serde(skip)]
+        b: u8,
+    },
+    StNoneLeft {
+        #[serde(skip)]
+        b: u8,
+    },
+}
+#[derive(serde::Serialize, Debug, Clone)]
+struct TsOneLeft(u8, #[serde(skip)] u8);
+#[derive(serde::Serialize, Debug, Clone)]
+struct TsNoneLeft(#[serde(skip)] u8);
+
+fn check_arity_sweep(ctx: &mut Ctx) {
+    let none: AlikeCase = Vec::new();
+    for kind in 0u8..7 {
+        for len in 0usize..=4 {
+            for honest in [true, false] {
+                let a = Arity { kind, len, honest };
+                let r = check_shape_only("Arity", &a, &none).map(|_| Eval::new(true, digest_of(&(kind, len, honest))).class("arity-sweep"));
+                ctx.observe("arity-sweep", r.map_err(|mut f| {
+                    f.case = json!({"arity": [kind, len, honest as u8]});
+                    f.signature = format!("{} collector={} len={}", f.signature, ["seq", "tuple", "tuple-struct", "tuple-variant", "map", "struct", "struct-variant"][kind as usize], len);
+                    f
+                }));
+                // as an element of an outer sequence and as a map value too
+                let r = check_shape_only("Vec<Arity>", &vec![a.clone(), a.clone()], &none).map(|_| Eval::new(true, digest_of(&(kind, len, honest, 1))).class("arity-sweep"));
+                ctx.observe("arity-sweep", r.map_err(|mut f| {
+                    f.case = json!({"arity": [kind, len, honest as u8]});
+                    f
+                }));
+            }
+        }
+    }
+    let ph = std::marker::PhantomData;
+    let derived: Vec<(&'static str, Box<dyn Fn() -> Result<(), Failure>>)> = vec![
+        ("Skippy::OneLeft", Box::new(move || check_shape_only("Skippy::OneLeft", &Skippy::OneLeft(7, ph), &Vec::new()))),
+        ("Skippy::NoneLeft", Box::new(|| check_shape_only("Skippy::NoneLeft", &Skippy::NoneLeft(1, 2), &Vec::new()))),
+        ("Skippy::TwoLeft", Box::new(|| check_shape_only("Skippy::TwoLeft", &Skippy::TwoLeft(1, 2, -3), &Vec::new()))),
+        ("Skippy::StOneLeft", Box::new(|| check_shape_only("Skippy::StOneLeft", &Skippy::StOneLeft { a: 1, b: 2 }, &Vec::new()))),
+        ("Skippy::StNoneLeft", Box::new(|| check_shape_only("Skippy::StNoneLeft", &Skippy::StNoneLeft { b: 2 }, &Vec::new()))),
+        ("TsOneLeft", Box::new(|| check_shape_only("TsOneLeft", &TsOneLeft(1, 2), &Vec::new()))),
+        ("TsNoneLeft", Box::new(|| check_shape_only("TsNoneLeft", &TsNoneLeft(1), &Vec::new()))),
+    ];
+    for (name, f) in derived {
+        let r = f().map(|_| Eval::new(true, digest_of(name)).class("arity-sweep")).map_err(|mut e| {
+            e.case = json!({"arity_derived": name});
+            e
+        });
+        ctx.observe("arity-sweep", r);
+    }
+    ctx.flush_failures();
+}
+
 type AlikeCase = Vec<(u8, u32, i16)>;
 
 fn g_alike() -> BS<AlikeCase> {
@@ -255,6 +392,7 @@ fn run(ctx: &mut Ctx) {
         }
         sweep!(i8, i16, i32, i64, u8, u16, u32, u64);
     }
+    check_arity_sweep(ctx);
     ctx.run_prop("alike-keys", tier.pick(3000, 100_000), g_alike(), check_alike);
     let x = (vec![1u8, 2], (3i8, 4i8));
     ctx.add_sample("shape", json!({"type": "(Vec<u8>,(i8,i8))", "documented": serde_lexpr::to_string(&x).unwrap_or_default(), "flipped node 0": "((1 2) #(3 4)) / #(#(1 2) #(3 4))", "improper": "#((1 2 . 5) #(3 4))"}));
@@ -279,6 +417,20 @@ impl<'a> TypeVisitor for Replay<'a> {
 }
 
 fn replay(_sub: &str, case: &Json) -> Option<CaseResult> {
+    if let Some(a) = case.get("arity") {
+        let t: (u8, usize, u8) = serde_json::from_value(a.clone()).ok()?;
+        let a = Arity { kind: t.0, len: t.1, honest: t.2 != 0 };
+        let none: AlikeCase = Vec::new();
+        return Some(
+            check_shape_only("Arity", &a, &none)
+                .and_then(|_| check_shape_only("Vec<Arity>", &vec![a.clone(), a.clone()], &none))
+                .map(|_| Eval::new(true, digest_of(&t)).class("arity-sweep"))
+                .map_err(|mut f| {
+                    f.case = json!({"arity": [t.0, t.1, t.2]});
+                    f
+                }),
+        );
+    }
     if let Some(a) = case.get("alike") {
         let c: AlikeCase = serde_json::from_value(a.clone()).ok()?;
         return Some(check_alike(&c));
